@@ -28,7 +28,7 @@ PROFILE = {
     "mix": {"quote": 2, "trade": 1, "rebal": 4, "mark": 0.2, "value": 0.3, "advance": 0.1},
     "always": ("rebal",),
     "p_margined": 0.4, "p_observe_every": 0.2, "p_frictionless": 0.3, "p_exact": 0.25,
-    "p_threshold": 0.7, "p_whole_lots": 0.35, "p_weight": 0.8, "p_again": 0.4,
+    "p_threshold": 0.7, "p_whole_lots": 0.35, "p_weight": 0.8, "p_again": 0.4, "p_sizes": 0.1,
     "motifs": [(0.3, gen_acct.motif_rebalance_twice_whole_lots), (0.3, gen_acct.motif_exact_threshold),
                (0.2, gen_acct.motif_liquidate_below_threshold)],
 }
